@@ -1,7 +1,12 @@
 /-
-  Cello/Seq.lean — executable model of the three sequence containers of Cello as they are in /repo now
+  Cello/Seq.lean — the LIST-LEVEL executable model of the three sequence containers of Cello as they are in /repo now
   (src/Array.c, src/List.c, src/Tuple.c; dispatch through src/Push.c, Get.c, Concat.c, Resize.c, Cmp.c, Assign.c),
   plus the abstract `List α` specification they are compared with (namespace `Spec`).
+
+  This level keeps the control flow of the C functions (index normalisation, order of checks, capacity arithmetic, the
+  walk of `List_At`, identity-based Tuple iteration) but writes the storage mechanisms as list operations.  The level
+  below — cells + memmove + realloc, nodes + link/unlink, pointer cells + Terminal — is Cello/SeqStore.lean; it is what the
+  driver runs and compares with the C representation, and CelloProofs shows that each of its steps is the step defined here.
 
   Conventions (DESIGN.md §5): `size_t` → `Nat`, `int64_t` → `Int`; an operation returns the new state *also when it
   raises*; the order of checks and mutations is the order in the C text; a read or write outside the object is the
